@@ -25,6 +25,7 @@ from mapproxy.image.opts import ImageOptions
 from mapproxy.image.tile import TiledImage
 from mapproxy.srs import SRS, bbox_equals, merge_bbox, make_lin_transf, SupportedSRS
 from mapproxy.proj import ProjError
+from mapproxy.util.py import error_text_without_file_names
 
 import logging
 from functools import reduce
@@ -486,4 +487,5 @@ class CacheMapLayer(MapLayer):
             raise MapBBOXError("could not transform query BBOX")
         except IOError as ex:
             from mapproxy.source import SourceError
-            raise SourceError("unable to transform image: %s" % ex)
+            # the message ends up in the exception report: without the name of the file
+            raise SourceError("unable to transform image: %s" % error_text_without_file_names(ex))
